@@ -236,6 +236,20 @@ class SimFS:
 
     replace = rename
 
+    def link(self, src, dst):
+        """os.link: a second name for the same inode; fails if the destination exists."""
+        src, dst = self.follow(src), self.norm(dst)
+        post = self._point("link", src)
+        if src not in self.files:
+            raise FileNotFoundError(errno.ENOENT, "No such file or directory", src)
+        if dst in self.files or dst in self.dirs:
+            raise FileExistsError(errno.EEXIST, "File exists", dst)
+        if posixpath.dirname(dst) not in self.dirs:
+            raise FileNotFoundError(errno.ENOENT, "No such file or directory", dst)
+        self.files[dst] = self.files[src]
+        self.journal.append(("link", dst, self.files[src]))
+        self._after(post, "link")
+
     def remove(self, path):
         path = self.norm(path)
         post = self._point("remove", path)
@@ -646,6 +660,10 @@ class DynOsShim:
         return FsHolder.fs.rename(src, dst)
 
     replace = rename
+
+    @staticmethod
+    def link(src, dst):
+        return FsHolder.fs.link(src, dst)
 
     @staticmethod
     def remove(path):
